@@ -271,7 +271,8 @@ Definition exec_expire (d : db) (now : Z) (args : list bytes) : reply * db :=
       else if is opt (B "nx") then (match cur with None => setit | Some _ => no end)
       else if is opt (B "xx") then (match cur with Some _ => setit | None => no end)
       else if is opt (B "gt") then (match cur with Some c => if t >? c then setit else no | None => no end)
-      else if is opt (B "lt") then (match cur with Some c => if t <? c then setit else no | None => no end)
+      (* no deadline counts as an infinite time to live: GT never applies to it, LT always does *)
+      else if is opt (B "lt") then (match cur with Some c => if t <? c then setit else no | None => setit end)
       else (err_other, d)
     end in
   match args with
